@@ -333,3 +333,388 @@ Definition instantiation_cf (defs : list sdef) (d : sdef) (args : list src) : bo
              forallb (fun c => is_param c ||
                                negb (existsb (src_eqb (canon (subst_src args c))) live))
                      (components defs ft)) (def_field_types d).
+
+(** * C05 as theorems: the registry of a program, the normalised type path of a source type *)
+From V Require Import Model.Subst Model.Generate Checkers.Sem.
+
+Definition toks_leading (t : tokens) : bool :=
+  match t with ":" :: ":" :: _ => true | _ => false end.
+
+(** a printed path [toks] with generic arguments [args] on its last segment, as the parser
+    ([Checkers/Parse.v]) reads it back *)
+Definition toks_pty (toks : tokens) (args : list pty) : pty :=
+  let segs := toks_to_segs toks in
+  PPath (toks_leading toks) (map (fun s => (s, [])) (removelast segs) ++ [(last segs "", args)]).
+
+(** the obvious rendering of a [tpath] as a parsed type, following [tp_tokens] (a field-level
+    compact prints its inner type); [alloc] = segments of the alloc crate path, which is
+    printed with a leading [::] *)
+Fixpoint tpath_pty (alloc : list string) (t : tpath) : pty :=
+  match t with
+  | TParam p => PPath false [(tpi_name p, [])]
+  | TPath ptoks params =>
+      toks_pty ptoks ((fix go (l : list tpath) := match l with [] => [] | x :: l' => tpath_pty alloc x :: go l' end) params)
+  | TVec o => abs_p (alloc ++ ["vec"; "Vec"]) [tpath_pty alloc o]
+  | TArray len o => PArray (tpath_pty alloc o) (String.append (N_to_string len) "usize")
+  | TTuple els => PTuple ((fix go (l : list tpath) := match l with [] => [] | x :: l' => tpath_pty alloc x :: go l' end) els)
+  | TPrim p => prim_pty alloc p
+  | TCompact inner is_field cpath =>
+      if is_field then tpath_pty alloc inner else toks_pty cpath [tpath_pty alloc inner]
+  | TBitVec order store bpath => toks_pty bpath [tpath_pty alloc store; tpath_pty alloc order]
+  end.
+
+Section Normal.
+  Variable defs : list sdef.
+  Variable s : settings.
+  Variable order_tp : bool -> tpath.     (* what the bit-order marker types resolve to *)
+
+  Definition opt_toks (o : option tokens) : tokens := match o with Some c => c | None => [] end.
+
+  (** the normalised type path of a source type inside a definition ([normalise] of DESIGN 6):
+      parameters are [Param] nodes that only carry their declared position, Box / Cow are
+      transparent, VecDeque is Vec, arguments of skipped parameters are dropped; [is_field]:
+      the type of a field (a compact there is printed as an attribute) *)
+  Fixpoint src_tpath (is_field : bool) (t : src) : tpath :=
+    match t with
+    | SParam i => TParam (mk_tpi 0 "" (N.of_nat i))
+    | SApp d args =>
+        let p := match nth_error defs d with Some sd => sd_path sd | None => [] end in
+        let skipped := match nth_error defs d with Some sd => map snd (sd_params sd) | None => [] end in
+        TPath (rel_path (s_root s :: p))
+              ((fix go (l : list src) (sk : list bool) : list tpath :=
+                  match l, sk with
+                  | x :: l', false :: sk' => src_tpath false x :: go l' sk'
+                  | _ :: l', true :: sk' => go l' sk'
+                  | x :: l', [] => src_tpath false x :: go l' []
+                  | [], _ => []
+                  end) args skipped)
+    | SVec x | SVecDeque x => TVec (src_tpath false x)
+    | SArray n x => TArray n (src_tpath false x)
+    | STup ts => TTuple ((fix go (l : list src) := match l with [] => [] | x :: l' => src_tpath false x :: go l' end) ts)
+    | SPrimT p => TPrim p
+    | SCompactT x => TCompact (src_tpath false x) is_field (opt_toks (s_compact s))
+    | SBox x => src_tpath is_field x
+    | SCow x => src_tpath is_field x
+    | SOpt x => TPath (abs_path ["core"; "option"; "Option"]) [src_tpath false x]
+    | SRes a b => TPath (abs_path ["core"; "result"; "Result"]) [src_tpath false a; src_tpath false b]
+    | SBTreeMap k v => TPath (alloc_tokens (s_alloc s) ++ abs_path ["collections"; "BTreeMap"])
+                             [src_tpath false k; src_tpath false v]
+    | SBTreeSet x => TPath (alloc_tokens (s_alloc s) ++ abs_path ["collections"; "BTreeSet"]) [src_tpath false x]
+    | SRange x => TPath (abs_path ["core"; "ops"; "Range"]) [src_tpath false x]
+    | SBitVec st lsb => TBitVec (order_tp lsb) (TPrim st) (opt_toks (s_bits s))
+    end.
+
+  (** the normalised field: path, compact flag, boxed flag *)
+  Definition normal_field (f : sfield) : field_ir :=
+    let t := src_tpath true (if sf_compact_attr f then SCompactT (sf_ty f) else sf_ty f) in
+    mk_fi t (is_compact t) (has_box (sf_ty f) && sf_type_name f).
+End Normal.
+
+Definition def_sfields (d : sdef) : list sfield :=
+  match sd_body d with
+  | SBStruct fs => fs
+  | SBEnum vs => flat_map (fun v => snd v) vs
+  end.
+
+(** ** recorded type names: [stringify!] of the source type (harness/src/reggen.rs [type_name]) *)
+Fixpoint render (defs : list sdef) (pnames : list string) (t : src) : string :=
+  let args l := join ", " ((fix go (l : list src) := match l with [] => [] | x :: l' => render defs pnames x :: go l' end) l) in
+  match t with
+  | SParam i => nth i pnames (String.append "P" (N_to_string (N.of_nat i)))
+  | SApp d a =>
+      let n := match nth_error defs d with Some sd => last (sd_path sd) "" | None => "" end in
+      match a with [] => n | _ => n ++ "<" ++ args a ++ ">" end
+  | SVec x => "Vec<" ++ render defs pnames x ++ ">"
+  | SVecDeque x => "VecDeque<" ++ render defs pnames x ++ ">"
+  | SArray n x => "[" ++ render defs pnames x ++ "; " ++ N_to_string n ++ "]"
+  | STup ts => "(" ++ args ts ++ ")"
+  | SPrimT p => prim_name p
+  | SCompactT x => "Compact<" ++ render defs pnames x ++ ">"
+  | SBox x => "Box<" ++ render defs pnames x ++ ">"
+  | SOpt x => "Option<" ++ render defs pnames x ++ ">"
+  | SRes a b => "Result<" ++ render defs pnames a ++ ", " ++ render defs pnames b ++ ">"
+  | SBTreeMap a b => "BTreeMap<" ++ render defs pnames a ++ ", " ++ render defs pnames b ++ ">"
+  | SBTreeSet x => "BTreeSet<" ++ render defs pnames x ++ ">"
+  | SCow x => "Cow<'static, " ++ render defs pnames x ++ ">"
+  | SRange x => "Range<" ++ render defs pnames x ++ ">"
+  | SBitVec st lsb => "BitVec<" ++ prim_name st ++ ", " ++ (if lsb then "Lsb0" else "Msb0") ++ ">"
+  end.
+
+(** ** [RegistryOf prog L r]: [r] is the registry scale-info derives from [prog].
+    [L] labels ids with closed canonical source types ([canon]: Box erased, VecDeque = Vec; the
+    unit structs [bitvec::order::{Lsb0,Msb0}] are the only unlabelled entries), is injective
+    (scale-info interns by type identity) and every entry is LOCALLY what the derive produces
+    for its label (one level of ids; docs are unconstrained). *)
+Section RegistryOf.
+  Variable defs : list sdef.
+  Variable L : N -> option src.
+  Variable r : registry.
+
+  Definition lab (id : N) (c : src) : Prop := L id = Some c.
+
+  Definition field_of (pnames : list string) (args : list src) (sf : sfield) (f : field) : Prop :=
+    f_name f = sf_name sf /\
+    lab (f_ty f) (let c := canon (subst_src args (sf_ty sf)) in if sf_compact_attr sf then SCompactT c else c) /\
+    f_type_name f = (if sf_type_name sf then Some (render defs pnames (sf_ty sf)) else None).
+
+  Definition param_of (pa : (string * bool) * src) (tp : tparam) : Prop :=
+    tp_name tp = fst (fst pa) /\
+    if snd (fst pa) then tp_ty tp = None else exists id, tp_ty tp = Some id /\ lab id (snd pa).
+
+  Definition plain_field (id : N) : field := mk_field None id None [].
+
+  Definition order_marker (lsb : bool) (t : ty) : Prop :=
+    t_path t = ["bitvec"; "order"; if lsb then "Lsb0" else "Msb0"] /\ t_params t = [] /\
+    t_def t = TDComposite [].
+
+  Definition builtin (t : ty) (d : typedef) : Prop := t_path t = [] /\ t_params t = [] /\ t_def t = d.
+
+  Definition entry_of (c : src) (t : ty) : Prop :=
+    match c with
+    | SParam _ | SBox _ | SVecDeque _ => False
+    | SApp d args =>
+        exists sd, nth_error defs d = Some sd /\
+        t_path t = sd_path sd /\
+        List.length args = List.length (sd_params sd) /\
+        Forall2 param_of (combine (sd_params sd) args) (t_params t) /\
+        let pnames := map fst (sd_params sd) in
+        match sd_body sd with
+        | SBStruct fs => exists fl, t_def t = TDComposite fl /\ Forall2 (field_of pnames args) fs fl
+        | SBEnum vs =>
+            exists vl, t_def t = TDVariant vl /\
+            Forall2 (fun (v : string * N * list sfield) (vr : variant) =>
+                       v_name vr = fst (fst v) /\ v_index vr = snd (fst v) /\
+                       Forall2 (field_of pnames args) (snd v) (v_fields vr)) vs vl
+        end
+    | SVec x => exists e, builtin t (TDSequence e) /\ lab e x
+    | SArray n x => exists e, builtin t (TDArray n e) /\ lab e x
+    | STup xs => exists es, builtin t (TDTuple es) /\ Forall2 lab es xs
+    | SPrimT p => builtin t (TDPrimitive p)
+    | SCompactT x => exists e, builtin t (TDCompact e) /\ lab e x
+    | SOpt x =>
+        exists e, lab e x /\ t_path t = ["Option"] /\ t_params t = [mk_tparam "T" (Some e)] /\
+        t_def t = TDVariant [mk_variant "None" [] 0 []; mk_variant "Some" [plain_field e] 1 []]
+    | SRes a b =>
+        exists x y, lab x a /\ lab y b /\ t_path t = ["Result"] /\
+        t_params t = [mk_tparam "T" (Some x); mk_tparam "E" (Some y)] /\
+        t_def t = TDVariant [mk_variant "Ok" [plain_field x] 0 []; mk_variant "Err" [plain_field y] 1 []]
+    | SBTreeMap k v =>
+        exists ik iv iseq, lab ik k /\ lab iv v /\ lab iseq (SVec (STup [k; v])) /\
+        t_path t = ["BTreeMap"] /\ t_params t = [mk_tparam "K" (Some ik); mk_tparam "V" (Some iv)] /\
+        t_def t = TDComposite [plain_field iseq]
+    | SBTreeSet x =>
+        exists e iseq, lab e x /\ lab iseq (SVec x) /\ t_path t = ["BTreeSet"] /\
+        t_params t = [mk_tparam "T" (Some e)] /\ t_def t = TDComposite [plain_field iseq]
+    | SCow x =>
+        exists e, lab e x /\ t_path t = ["Cow"] /\ t_params t = [mk_tparam "T" (Some e)] /\
+        t_def t = TDComposite [plain_field e]
+    | SRange x =>
+        exists e, lab e x /\ t_path t = ["Range"] /\ t_params t = [mk_tparam "Idx" (Some e)] /\
+        t_def t = TDComposite [mk_field (Some "start") e (Some "Idx") [];
+                               mk_field (Some "end") e (Some "Idx") []]
+    | SBitVec st lsb =>
+        exists ist io ot, builtin t (TDBitSeq ist io) /\ lab ist (SPrimT st) /\
+        L io = None /\ resolve r io = Some ot /\ order_marker lsb ot
+    end.
+
+  Definition RegistryOf : Prop :=
+    (* every labelled id has an entry, and it is the derive's entry for the label *)
+    (forall id c, L id = Some c -> exists t, resolve r id = Some t /\ entry_of c t) /\
+    (* unlabelled entries are the bit-order markers *)
+    (forall id t, resolve r id = Some t -> L id = None -> exists lsb, order_marker lsb t) /\
+    (* one id per type *)
+    (forall i j c, L i = Some c -> L j = Some c -> i = j).
+End RegistryOf.
+
+(** *** the same as a boolean, with the labelling given as a list (position = id) *)
+Fixpoint forall2b {A B} (f : A -> B -> bool) (la : list A) (lb : list B) : bool :=
+  match la, lb with
+  | [], [] => true
+  | a :: la', b :: lb' => f a b && forall2b f la' lb'
+  | _, _ => false
+  end.
+
+Definition label_at (labels : list (option src)) (id : N) : option src :=
+  match nth_error labels (N.to_nat id) with Some o => o | None => None end.
+
+Section RegistryOfB.
+  Variable defs : list sdef.
+  Variable labels : list (option src).
+  Variable r : registry.
+
+  Definition labb (id : N) (c : src) : bool :=
+    match label_at labels id with Some y => src_eqb y c | None => false end.
+
+  Definition ostr_eqb : option string -> option string -> bool := option_eqb String.eqb.
+  Definition path_is_b (p q : list string) : bool := list_eqb String.eqb p q.
+
+  Definition field_ofb (pnames : list string) (args : list src) (sf : sfield) (f : field) : bool :=
+    ostr_eqb (f_name f) (sf_name sf) &&
+    labb (f_ty f) (let c := canon (subst_src args (sf_ty sf)) in if sf_compact_attr sf then SCompactT c else c) &&
+    ostr_eqb (f_type_name f) (if sf_type_name sf then Some (render defs pnames (sf_ty sf)) else None).
+
+  Definition param_ofb (pa : (string * bool) * src) (tp : tparam) : bool :=
+    String.eqb (tp_name tp) (fst (fst pa)) &&
+    match tp_ty tp with
+    | None => snd (fst pa)
+    | Some id => negb (snd (fst pa)) && labb id (snd pa)
+    end.
+
+  Definition tparam_eqb (a b : tparam) : bool :=
+    String.eqb (tp_name a) (tp_name b) && option_eqb N.eqb (tp_ty a) (tp_ty b).
+  Definition field_eqb0 (a b : field) : bool :=
+    ostr_eqb (f_name a) (f_name b) && N.eqb (f_ty a) (f_ty b) && ostr_eqb (f_type_name a) (f_type_name b).
+  Definition variant_eqb0 (a b : variant) : bool :=
+    String.eqb (v_name a) (v_name b) && N.eqb (v_index a) (v_index b) && forall2b field_eqb0 (v_fields a) (v_fields b).
+
+  Definition shape_b (t : ty) (path : list string) (params : list tparam) : bool :=
+    path_is_b (t_path t) path && forall2b tparam_eqb (t_params t) params.
+  Definition composite_b (t : ty) (fs : list field) : bool :=
+    match t_def t with TDComposite l => forall2b field_eqb0 l fs | _ => false end.
+  Definition variant_b (t : ty) (vs : list variant) : bool :=
+    match t_def t with TDVariant l => forall2b variant_eqb0 l vs | _ => false end.
+
+  Definition order_markerb (lsb : bool) (t : ty) : bool :=
+    shape_b t ["bitvec"; "order"; if lsb then "Lsb0" else "Msb0"] [] && composite_b t [].
+
+  Definition entry_ofb (c : src) (t : ty) : bool :=
+    match c with
+    | SParam _ | SBox _ | SVecDeque _ => false
+    | SApp d args =>
+        match nth_error defs d with
+        | None => false
+        | Some sd =>
+            path_is_b (t_path t) (sd_path sd) &&
+            Nat.eqb (List.length args) (List.length (sd_params sd)) &&
+            forall2b param_ofb (combine (sd_params sd) args) (t_params t) &&
+            let pnames := map fst (sd_params sd) in
+            match sd_body sd, t_def t with
+            | SBStruct fs, TDComposite fl => forall2b (field_ofb pnames args) fs fl
+            | SBEnum vs, TDVariant vl =>
+                forall2b (fun (v : string * N * list sfield) (vr : variant) =>
+                            String.eqb (v_name vr) (fst (fst v)) && N.eqb (v_index vr) (snd (fst v)) &&
+                            forall2b (field_ofb pnames args) (snd v) (v_fields vr)) vs vl
+            | _, _ => false
+            end
+        end
+    | SVec x => shape_b t [] [] && match t_def t with TDSequence e => labb e x | _ => false end
+    | SArray n x => shape_b t [] [] && match t_def t with TDArray m e => N.eqb m n && labb e x | _ => false end
+    | STup xs => shape_b t [] [] && match t_def t with TDTuple es => forall2b labb es xs | _ => false end
+    | SPrimT p => shape_b t [] [] && match t_def t with TDPrimitive q => prim_eqb q p | _ => false end
+    | SCompactT x => shape_b t [] [] && match t_def t with TDCompact e => labb e x | _ => false end
+    | SOpt x =>
+        match t_params t with
+        | [tp] => match tp_ty tp with
+                  | Some e => labb e x && shape_b t ["Option"] [mk_tparam "T" (Some e)] &&
+                              variant_b t [mk_variant "None" [] 0 []; mk_variant "Some" [plain_field e] 1 []]
+                  | None => false end
+        | _ => false
+        end
+    | SRes a b =>
+        match map tp_ty (t_params t) with
+        | [Some x; Some y] =>
+            labb x a && labb y b && shape_b t ["Result"] [mk_tparam "T" (Some x); mk_tparam "E" (Some y)] &&
+            variant_b t [mk_variant "Ok" [plain_field x] 0 []; mk_variant "Err" [plain_field y] 1 []]
+        | _ => false
+        end
+    | SBTreeMap k v =>
+        match map tp_ty (t_params t), t_def t with
+        | [Some ik; Some iv], TDComposite [f] =>
+            labb ik k && labb iv v && labb (f_ty f) (SVec (STup [k; v])) &&
+            shape_b t ["BTreeMap"] [mk_tparam "K" (Some ik); mk_tparam "V" (Some iv)] &&
+            composite_b t [plain_field (f_ty f)]
+        | _, _ => false
+        end
+    | SBTreeSet x =>
+        match map tp_ty (t_params t), t_def t with
+        | [Some e], TDComposite [f] =>
+            labb e x && labb (f_ty f) (SVec x) && shape_b t ["BTreeSet"] [mk_tparam "T" (Some e)] &&
+            composite_b t [plain_field (f_ty f)]
+        | _, _ => false
+        end
+    | SCow x =>
+        match map tp_ty (t_params t) with
+        | [Some e] => labb e x && shape_b t ["Cow"] [mk_tparam "T" (Some e)] && composite_b t [plain_field e]
+        | _ => false
+        end
+    | SRange x =>
+        match map tp_ty (t_params t) with
+        | [Some e] => labb e x && shape_b t ["Range"] [mk_tparam "Idx" (Some e)] &&
+                      composite_b t [mk_field (Some "start") e (Some "Idx") []; mk_field (Some "end") e (Some "Idx") []]
+        | _ => false
+        end
+    | SBitVec st lsb =>
+        shape_b t [] [] &&
+        match t_def t with
+        | TDBitSeq ist io =>
+            labb ist (SPrimT st) &&
+            match label_at labels io, resolve r io with
+            | None, Some ot => order_markerb lsb ot
+            | _, _ => false
+            end
+        | _ => false
+        end
+    end.
+
+  Definition registry_ofb : bool :=
+    Nat.eqb (List.length labels) (List.length r) &&
+    forall2b (fun (o : option src) (e : N * ty) =>
+                match o with
+                | Some c => entry_ofb c (snd e)
+                | None => order_markerb true (snd e) || order_markerb false (snd e)
+                end) labels r &&
+    (fix nodup (l : list (option src)) : bool :=
+       match l with
+       | [] => true
+       | None :: l' => nodup l'
+       | Some c :: l' => negb (existsb (fun o => match o with Some c' => src_eqb c c' | None => false end) l') && nodup l'
+       end) labels.
+End RegistryOfB.
+
+(** ** the fragment of source types covered by [C05_skeleton_is_source_partial]: parameters,
+    applications of definitions, Vec / VecDeque, arrays, tuples, primitives, Compact, Box *)
+Fixpoint src_fragment (t : src) : bool :=
+  match t with
+  | SParam _ | SPrimT _ => true
+  | SApp _ args => forallb src_fragment args
+  | STup ts => forallb src_fragment ts
+  | SVec x | SVecDeque x | SArray _ x | SCompactT x | SBox x => src_fragment x
+  | _ => false
+  end.
+
+(** [Box<Compact<T>>] as a field type is outside [expected_item]'s conventions *)
+Fixpoint unbox (t : src) : src := match t with SBox x => unbox x | _ => t end.
+Definition field_fragment (f : sfield) : bool :=
+  src_fragment (sf_ty f) &&
+  match sf_ty f with
+  | SBox _ => match unbox (sf_ty f) with SCompactT _ => false | _ => true end
+  | _ => true
+  end.
+
+(** what the settings must provide for a definition of the fragment: an item path that is not
+    substituted, is namespaced, made of identifiers, and not called [Cow] *)
+Definition def_okb (s : settings) (d : sdef) : bool :=
+  match subs_get (s_subs s) (sd_path d) with Some _ => false | None => true end &&
+  match sd_path d with _ :: _ :: _ => true | _ => false end &&
+  forallb ident_lexb (sd_path d) &&
+  negb (String.eqb (last (sd_path d) "") "Cow").
+
+(** a [#[codec(compact)]] field whose Compact<..> type coincides with an argument is told apart
+    from the parameter only by its recorded type name *)
+Definition compact_fields_okb (defs : list sdef) (d : sdef) (args : list src) : bool :=
+  forallb (fun f : sfield =>
+             negb (sf_compact_attr f) ||
+             forallb (fun ap : src * (string * bool) =>
+                        snd (snd ap) ||
+                        negb (src_eqb (SCompactT (canon (subst_src args (sf_ty f)))) (fst ap)) ||
+                        (sf_type_name f &&
+                         negb (String.eqb (fst (snd ap)) (render defs (map fst (sd_params d)) (sf_ty f)))))
+                     (combine args (sd_params d)))
+          (def_sfields d).
+
+(** the recorded type name mentions [Box<] exactly when the source type does (true of every
+    program whose identifiers do not contain the characters [Box<]; decidable per definition) *)
+Definition box_names_okb (defs : list sdef) (d : sdef) : bool :=
+  forallb (fun f : sfield =>
+             Bool.eqb (contains "Box<" (render defs (map fst (sd_params d)) (sf_ty f))) (has_box (sf_ty f)))
+          (def_sfields d).
